@@ -36,7 +36,7 @@ def run(ctx):
     if pr["broken"] or not pr["ok"]:
         ctx.violation(dict(kind="proof-obligation-broken", theorem_or_file=pr["broken"], bad_axioms=pr["bad_axioms"], log=pr["log"][-2000:]),
                       "proof obligation no longer checks: %s" % (pr["broken"] or pr["bad_axioms"]), found_input=False)
-    nprog = ctx.n(500, 15000)
+    nprog = ctx.n(200, 15000)
     args = ["-seed", str(ctx.seed), "-n", str(nprog)]
     if ctx.replay:
         rp = json.load(open(ctx.replay))
@@ -73,16 +73,16 @@ def run(ctx):
                     layers=c["desc"]["layers"], operators=str(c["desc"].get("operators"))[:3000], harness_error=c["desc"].get("harness_error"))
 
     # the PostScript back-end writes canvas millimetres as PostScript units (1/72 inch) without a scale: every PS output
-    for f in vlib.known_findings("C12"):
-        pass
-    if any(c["fam"] == "ps" for c in cases):
-        ctx.known_finding("PS/EPS: coordinates, line widths and %%BoundingBox are written in millimetres but PostScript user space is in points "
-                          "(no scale operator is emitted): the drawing is uniformly scaled by 25.4/72 in absolute size (shape, paint, order and "
-                          "proportions to the bounding box are as judged); every PS output, e.g. a 100x80 mm canvas has BoundingBox 0 0 100 80")
+    known = {f["key"]: f for f in vlib.known_findings("C12") if f.get("status") == "open"}
+    if any(c["fam"] == "ps" for c in cases) and "ps-millimetres-written-as-points" in known:
+        ctx.known_finding(known["ps-millimetres-written-as-points"]["what"] + "; every PS output, e.g. a 100x80 mm canvas has BoundingBox 0 0 100 80")
     if stroke_panics:
-        ctx.known_finding("Path.Stroke panics 'path has NaN or Inf' (in Settle of the stroke outline) for some polyline/cubic inputs; the outline fallback of the "
-                          "back-ends and the rasteriser hit the same panic (C04/C10 territory; %d of %d programs skipped), e.g. %s" % (
+        if "outline-fallback-stroke-panic-nan-inf" in known:
+            ctx.known_finding("%s (%d of %d programs skipped), e.g. %s" % (known["outline-fallback-stroke-panic-nan-inf"]["what"],
                               len(stroke_panics), len(cases), stroke_panics[0][1][:300]))
+        else:
+            c, he = stroke_panics[0]
+            ctx.violation(dict(kind="property-fails-on-implementation", **describe(c, 0, 0)), "Path.Stroke panics in the outline fallback: %s" % he[:200])
     prop_fail.sort(key=lambda t: len(t[0]["coq"]))
     for c, tie, prop in prop_fail[:3]:
         ctx.violation(dict(kind="property-fails-on-implementation", **describe(c, tie, prop)), "%s (%s)" % (",".join(names(PROP, prop)), c["fam"]))
